@@ -563,7 +563,7 @@ def run(ctx):
         Gs = [0, 3, 20, 40]
         NFs = [3, 5, 10]
         FS = [16e9, 160e9]
-        BWs = [None, 0.2]
+        BWs = [None, 0.2, 0.6]       # 0.6 fs: a wide but legal optical filter (its low-pass equivalent cuts at 0.3 fs)
         conf_seeds = [1, 2]
         confN = 2 ** 16
     else:
@@ -571,7 +571,7 @@ def run(ctx):
         Gs = [0, 1, 3, 10, 20, 40]
         NFs = [3, 7, 10]
         FS = [16e9, 40e9, 160e9]
-        BWs = [None, 0.1, 0.2]
+        BWs = [None, 0.1, 0.2, 0.6, 0.9]
         conf_seeds = [1, 2, 3, 4]
         confN = 2 ** 17
     gvs = [(w, f) for w in WL for f in FS]
